@@ -666,6 +666,12 @@ func replay(c json.RawMessage) (bool, string, error) {
 	}
 	in := mk()
 	o := vsched.RunFiltered(in.Bodies, cs.Schedule, 4000, true, in.Filter)
+	if o.Diverged != "" {
+		if in.Cleanup != nil {
+			in.Cleanup()
+		}
+		return false, "the recorded schedule does not fit the synchronisation structure of this tree (" + o.Diverged + "): nothing reproduced", nil
+	}
 	msgs := in.Check(o)
 	if in.Cleanup != nil {
 		in.Cleanup()
